@@ -367,14 +367,17 @@ def run_cert_images(cases, impl, drv, drv_key, tag, timeout=1800):
         for f in futs:
             for cid, lines in parse_obs(f.result()).items():
                 safe = None
+                stats = None
                 for l in lines:
                     if l.startswith("ISAFE"):
                         safe = l.split()[1]
+                    if l.startswith("ISTATS"):
+                        stats = l.split()[1]
                     if l.startswith("ICERT"):
                         p = l.split()
-                        res[cid] = (p[1], int(p[2]), " ".join(p[3:]), safe)
+                        res[cid] = (p[1], int(p[2]), " ".join(p[3:]), safe, stats)
     for c, _ in todo:
-        res.setdefault(c.id, ("0", 0, "checker did not answer (timeout or crash)", "0"))
+        res.setdefault(c.id, ("0", 0, "checker did not answer (timeout or crash)", "0", "0"))
     return res
 
 
